@@ -133,6 +133,16 @@ func (cs *c01case) readAll(r *Rng, name string, c *Ctx) {
 			if ms := c.Model.Ask(fmt.Sprintf("spec %s %s %d", ps, es, n.v)); strings.TrimPrefix(ms, "ok ") != spec {
 				c.Report("H", "C01 spec-implementations-disagree", "Go oracle and Lean Spec.specRead differ", op+"\ngo: "+spec+"\nlean: "+ms)
 			}
+			// third path: the range scan over the interval holding exactly this key resolves the same entries;
+			// it must list the key exactly when the point read finds a value (an error on both sides counts as agreement)
+			if rr := Get(fmt.Sprintf("node/%s/%s/keyrange/%s/%s", n.uuid, name, key, key)); resp.Code == 200 || resp.Code == 404 {
+				listed := rr.Code == 200 && strings.Contains(string(rr.Body), `"`+key+`"`)
+				c.Count("range-vs-point")
+				if rr.Code == 200 && listed != (resp.Code == 200) {
+					c.Report("O", "C01 range-read-differs-from-point-read", "the range scan over a single key resolves the key's entries differently from the point read",
+						fmt.Sprintf("%s\nGET key/%s -> %d ; GET keyrange/%s/%s -> %s\n%s", op, key, resp.Code, key, key, rr, strings.Join(cs.histFor(key), "\n")))
+				}
+			}
 			// second path: GetBestKeyVersion on the raw key list in random order
 			if data != nil {
 				tk, _ := keyvalue.NewTKey(key)
